@@ -97,8 +97,8 @@ theorem panosHttpGet_spec (hrep : PanosRep bad) (ρ : Role) (t : Txt) (env : Env
     exact .err hs rfl rfl
 
 theorem panosHttpPrefixGetLog_spec (hrep : PanosRep bad) (ρ : Role) (t : Txt) (env : Env) (s : St) (hj : J bad s)
-    (hm : s.mode = .run) :
-    HttpOut bad ρ (fun r => r.arr = .full ∧ r.status200 = true) (exec (panosHttpPrefixGetLog ρ t) env s) := by
+    (hm : s.mode = .run) (lits : List String := ["_", "_"]) :
+    HttpOut bad ρ (fun r => r.arr = .full ∧ r.status200 = true) (exec (panosHttpPrefixGetLog ρ t lits) env s) := by
   have h1 := panosHttpGet_spec bad hrep ρ t env s hj hm
   simp only [panosHttpPrefixGetLog, panosHttpPrefixGetLogBody, exec_call _ _ _ _ _ hm, exec_seq]
   generalize exec (panosHttpGet ρ t) env s = s1 at h1
